@@ -462,6 +462,33 @@ def _helper_cases(src: str, mode="exec"):
             return enc_str("".join(chr(b) for b in v)), "1"
         return enc_str(v), "0"
 
+    # ---- xonsh builders (C05): dump the built tree with the argument nodes as holes
+    def _ds_sp(n):
+        return f"{n.lineno}:{n.col_offset}-{n.end_lineno}:{n.end_col_offset}"
+
+    def _ds_dump(n, holes):
+        for i, h in enumerate(holes):
+            if n is h:
+                return f"H({i})"
+        if isinstance(n, _ast.Name):
+            return f"N({n.id};{_ds_sp(n)})"
+        if isinstance(n, _ast.Attribute):
+            return f"A({_ds_dump(n.value, holes)};{n.attr};{_ds_sp(n)})"
+        if isinstance(n, _ast.Constant):
+            return f"C({enc_str(n.value)};{_ds_sp(n)})"
+        if isinstance(n, _ast.Call):
+            return f"K({_ds_dump(n.func, holes)};[{'|'.join(_ds_dump(a, holes) for a in n.args)}];{_ds_sp(n)})"
+        if isinstance(n, _ast.Subscript):
+            return f"S({_ds_dump(n.value, holes)};{_ds_dump(n.slice, holes)};{type(n.ctx).__name__};{_ds_sp(n)})"
+        if isinstance(n, _ast.Starred):
+            return f"T({_ds_dump(n.value, holes)};{_ds_sp(n)})"
+        if isinstance(n, _ast.Tuple):
+            return f"U([{'|'.join(_ds_dump(a, holes) for a in n.elts)}];{_ds_sp(n)})"
+        return f"?{type(n).__name__}"
+
+    def _ds_locs(locs):
+        return f"{locs['lineno']}:{locs['col_offset']}-{locs['end_lineno']}:{locs['end_col_offset']}"
+
     class P(XonshParser):
         _span_seen = set()
 
@@ -534,6 +561,74 @@ def _helper_cases(src: str, mode="exec"):
                     cases.append((req, str(js[0]) if ok else "span-does-not-take-that-token's-end", src))
             except Exception:  # noqa: BLE001
                 pass
+            return res
+
+        def _ds_add(self, req, node, holes):
+            try:
+                d = _ds_dump(node, holes)
+                cases.append((req, d, src))
+            except Exception:  # noqa: BLE001
+                pass
+
+        def expand_env_name(self, name, ctx=None, **locs):
+            res = super().expand_env_name(name, ctx, **locs)
+            self._ds_add(f"desugar envname {enc_str(name.string)} {type(res.ctx).__name__} {_ds_locs(locs)}", res, [])
+            return res
+
+        def expand_env_expr(self, slices, ctx=None, **locs):
+            res = super().expand_env_expr(slices, ctx, **locs)
+            self._ds_add(f"desugar envexpr {type(res.ctx).__name__} {_ds_locs(locs)}", res, [slices])
+            return res
+
+        def handle_proc(self, method, args, **locs):
+            res = super().handle_proc(method, args, **locs)
+            self._ds_add(f"desugar proc {method} {len(args)} {_ds_locs(locs)}", res, list(args))
+            return res
+
+        def proc_inject(self, args, **locs):
+            res = super().proc_inject(args, **locs)
+            self._ds_add(f"desugar inject {len(args)} {_ds_locs(locs)}", res, list(args))
+            return res
+
+        def proc_pyexpr(self, expr, **locs):
+            res = super().proc_pyexpr(expr, **locs)
+            self._ds_add(f"desugar pyexpr {_ds_locs(locs)}", res, [expr])
+            return res
+
+        def expand_search_path(self, a, **locs):
+            res = super().expand_search_path(a, **locs)
+            self._ds_add(f"desugar search {enc_str(a.string)} {_ds_locs(locs)}", res, [])
+            return res
+
+        def macro_call(self, a, b, **locs):
+            res = super().macro_call(a, b, **locs)
+            ps = " ".join(f"{enc_str(p_.string)}@{p_.start[0]}:{p_.start[1]}-{p_.end[0]}:{p_.end[1]}" for p_ in b)
+            self._ds_add(f"desugar macrocall {_ds_locs(locs)} {ps}".rstrip(), res, [a])
+            return res
+
+        def handle_with_macro_stmt(self, a, b, **locs):
+            ctx0 = a.context_expr
+            res = super().handle_with_macro_stmt(a, b, **locs)
+            self._ds_add(f"desugar entermacro {_ds_locs(locs)} {enc_str(b.string)} {b.start[0]}:{b.start[1]}-{b.end[0]}:{b.end[1]}", a.context_expr, [ctx0])
+            return res
+
+        def expand_help(self, atoms, **locs):
+            try:
+                parts = []
+                for atom, tok in atoms:
+                    idn = atom.id if isinstance(atom, _ast.Name) else "-"
+                    parts.append(f"{atom.lineno}:{atom.col_offset}-{atom.end_lineno}:{atom.end_col_offset};{idn};{1 if tok.string == '??' else 0};{tok.end[0]}:{tok.end[1]}")
+                req = "desugar help " + " ".join(parts)
+            except Exception:  # noqa: BLE001
+                req = None
+            try:
+                res = super().expand_help(atoms, **locs)
+            except SyntaxError:
+                if req:
+                    cases.append((req, "error", src))
+                raise
+            if req and res is not None and all(ch.isascii() for ch in req):
+                self._ds_add(req, res, [a_ for a_, _t in atoms])
             return res
 
         def proc_macro_arg(self, a, **locs):
@@ -620,7 +715,7 @@ def helper_cases(srcs):
     return out
 
 
-def run_helper_correspondence(rep, cases, kinds=("macro", "withmacro", "makeargs", "builderr", "span", "concat", "procmacro")):
+def run_helper_correspondence(rep, cases, kinds=("macro", "withmacro", "makeargs", "builderr", "span", "concat", "procmacro", "desugar")):
     by = {}
     for c in cases:
         k = c[0].split(" ", 1)[0]
@@ -628,7 +723,7 @@ def run_helper_correspondence(rep, cases, kinds=("macro", "withmacro", "makeargs
             by.setdefault(k, []).append(c)
     bad_all = []
     for k, cs in sorted(by.items()):
-        bad_all += run_correspondence(rep, {"macro": "consume_macro_params", "withmacro": "consume_with_macro_params", "makeargs": "make_arguments", "builderr": "_build_syntax_error", "span": "span", "concat": "concatenate_strings", "procmacro": "proc_macro_arg"}[k], cs)
+        bad_all += run_correspondence(rep, {"macro": "consume_macro_params", "withmacro": "consume_with_macro_params", "makeargs": "make_arguments", "builderr": "_build_syntax_error", "span": "span", "concat": "concatenate_strings", "procmacro": "proc_macro_arg", "desugar": "xonsh builders"}[k], cs)
     return bad_all
 
 
